@@ -250,4 +250,25 @@ def run(F, rep):
     from engines import rule_loop_state
     rule_loop_state(F, rep, 'C14.S1', lambda g: g.file.endswith(('/parser.cpp', '/xmlutils.cpp')), 'parser.cpp and xmlutils.cpp')
 
+    # ------------------------------------------------------------------ N: both legacy namespaces are removed
+    rep.rule('C14.N2', 'removeCellml1XNamespaces removes the CellML 1.0 and the 1.1 namespace declarations independently of each other: the removal of one does not depend on whether the element also declares the other '
+                       '(an element that declares both keeps one of them otherwise, and its cn elements lose their units)')
+    rn = F.fn1('libcellml::removeCellml1XNamespaces')
+    rms = [c for c in rn.walk() if c.get('k') == 'Call' and c.get('fn') == 'removeNamespaceDefinition']
+    nss = {render(nth_arg(c, 0)) for c in rms}
+    if len(rms) < 2 or len(nss) < 2:
+        raise AnalysisBroken('removeCellml1XNamespaces: removal calls for the two legacy namespaces not found (%s)' % sorted(nss))
+    for c in rms:
+        own = render(nth_arg(c, 0))
+        dep = []
+        for cn, tr in (ff(rn).conds_at(c) or []):
+            for x in walk(cn):
+                if x.get('k') == 'Call' and x.get('fn') in ('hasNamespaceDefinition',) and render(nth_arg(x, 0)) != own and render(nth_arg(x, 0)) in nss:
+                    dep.append('%s is %s' % (render(x)[:60], tr))
+        rep.check(not dep, 'C14.N2', 'remove %s' % own.split('::')[-1], rn.where(c), 'the %s declaration is removed only when %s' % (own.split('::')[-1], ' and '.join(dep)), 'independent of the other namespace')
+
+    # ------------------------------------------------------------------ sibling cursors
+    from engines import rule_cursor_loops
+    rule_cursor_loops(F, rep, 'C14.K1', lambda g: g.file.endswith(('/parser.cpp', '/xmlutils.cpp', '/xmlnode.cpp')), 25, 'the parser and its XML helpers')
+
 
